@@ -188,6 +188,7 @@ def rule_predicate(ck, facts):
             continue
         kinds = {v["d"]: v["n"] for v in adt["variants"]}
         seen = {}
+        zipped = {}
         for p in paths:
             if p.end != "return":
                 continue
@@ -203,6 +204,8 @@ def rule_predicate(ck, facts):
                         k2 = kinds.get(str(v))
             ret = p.env.get(0)
             seen.setdefault((k1, k2), []).append(ret)
+            if ret is not None and ret[0] != "k" and "::zip" in repr(ret) and "::len" not in repr(ret) and not any("len" in repr(c) for c, _, _ in p.conds):
+                zipped.setdefault((k1, k2), []).append(ret)
         diag = 0
         for (k1, k2), rets in sorted(seen.items(), key=str):
             if k1 is None:
@@ -226,7 +229,10 @@ def rule_predicate(ck, facts):
                     # must mention payloads of both args
                     if "('arg', 1)" in txt and "('arg', 2)" in txt:
                         good = True
-                if good:
+                prefix = zipped.get((k1, k2), [])
+                if good and prefix:
+                    ck.bad(R, "diag|%s|prefix" % k1, "%s: two %s nodes are compared element by element over `zip` without comparing the lengths (%s): a child list that is a prefix of the other compares equal, so a layout that gained or lost cells at the tail of a call is taken for unchanged and the old buffer is kept verbatim" % (f.short, k1, show(prefix[0])[:80]), f.where())
+                elif good:
                     ck.ok(R, "diag|%s" % k1, {"kind": k1, "result": [show(r) for r in rets if r][:2]})
                 else:
                     ck.bad(R, "diag|%s" % k1, "%s: for two %s nodes the result %s does not compare the payloads of both nodes" % (f.short, k1, [show(r) for r in rets if r][:2]), f.where())
